@@ -9,7 +9,7 @@ INVARIANT TypeOK
 INVARIANT RoundTrip
 INVARIANT RoundTripFind
 INVARIANT FindInvertsCrawl
-INVARIANT OrderIndependence
+INVARIANT OrderIndependenceModuloShadow
 INVARIANT DirVersusFilesModuloShadow
 INVARIANT DirVersusPackageModuloShadow
 INVARIANT Emit
